@@ -18,6 +18,107 @@ fn explore_req(part: &mut Part, cfg: &SrvCfg, max_states: usize, max_secs: f64, 
     }
 }
 
+/// Script menu for feature-matrix configurations: (name, chunks, well-formed only?).
+fn script_menu(c: usize) -> Vec<(&'static str, Vec<Vec<u8>>, bool)> {
+    let pair = {
+        let mut v = tagged_get(c, 0);
+        v.extend_from_slice(&tagged_get(c, 1));
+        v
+    };
+    let get_then_expect = {
+        let mut v = tagged_get(c, 0);
+        v.extend_from_slice(&tagged_expect_head(c, 1, 2));
+        v
+    };
+    let get_then_garbage = {
+        let mut v = tagged_get(c, 0);
+        v.extend_from_slice(b"BAD LINE\r\n");
+        v
+    };
+    let whole = tagged_put(c, 1, b"hello");
+    vec![
+        ("get", vec![tagged_get(c, 0)], true),
+        ("pair", vec![pair], true),
+        ("expect", vec![tagged_expect_head(c, 0, 3), b"abc".to_vec()], true),
+        ("get+expect-head|body", vec![get_then_expect, b"ok".to_vec()], true),
+        ("split-line|put", vec![tagged_get(c, 0)[..9].to_vec(), tagged_get(c, 0)[9..].to_vec(), whole], true),
+        ("get+garbage", vec![get_then_garbage], false),
+        ("get|garbage", vec![tagged_get(c, 0), b"BAD LINE\r\n".to_vec()], false),
+        ("oversized", vec![format!("PUT /c{}/r0 HTTP/1.1\r\nContent-Length: 99999999\r\n\r\n", c).into_bytes()], false),
+    ]
+}
+
+/// Two-client configurations combining every pair of script kinds (thorough) or each kind with
+/// itself and with its successor (quick), with the property's standard client flags and oracles.
+fn matrix(property: &str, thorough: bool) -> Vec<SrvCfg> {
+    let mut out = vec![];
+    let n = script_menu(0).len();
+    for i in 0..n {
+        for j in 0..n {
+            if !thorough && !(j == i && [1usize, 3, 4, 5].contains(&i)) {
+                continue;
+            }
+            let (ni, si, vi) = script_menu(0).swap_remove(i);
+            let (nj, sj, vj) = script_menu(1).swap_remove(j);
+            let label = format!("matrix {} x {}", ni, nj);
+            let cfg = match property {
+                "C08" => {
+                    if !vi || !vj {
+                        continue;
+                    }
+                    let mut c = SrvCfg::base("C08", &label, vec![ClientCfg::well_behaved(si), ClientCfg::well_behaved(sj)]);
+                    c.closure_all = true;
+                    c.flush_probe = true;
+                    c.orders = Orders::AscRev;
+                    c.max_outstanding_for_respond = 3;
+                    if (i + j) % 3 == 0 {
+                        c.resp_sizes = vec![5, 9000];
+                        c.small_sndbuf = true;
+                    }
+                    c
+                }
+                "C07" => {
+                    let mk = |sc: Vec<Vec<u8>>| {
+                        let mut a = ClientCfg::adversary(sc);
+                        a.reads = true;
+                        a.can_shut_rd = false;
+                        a.can_shut_wr = false;
+                        a
+                    };
+                    let mut c = SrvCfg::base("C07", &label, vec![mk(si), mk(sj)]);
+                    c.max_outstanding_for_respond = 3;
+                    c.flush_action = (i + j) % 2 == 1;
+                    c
+                }
+                "C09" => {
+                    let mut a0 = ClientCfg::adversary(si);
+                    a0.can_shut_wr = (i + j) % 2 == 0;
+                    let mut a1 = ClientCfg::adversary(sj);
+                    a1.can_close = (i + j) % 2 == 1;
+                    a1.can_shut_wr = false;
+                    let mut c = SrvCfg::base("C09", &label, vec![a0, a1, witness(2)]);
+                    c.closure_witness = true;
+                    c.release_check = true;
+                    c.max_outstanding_for_respond = 2;
+                    c
+                }
+                _ => continue,
+            };
+            out.push(cfg);
+        }
+    }
+    out
+}
+
+fn run_matrix(part: &mut Part, property: &str, thorough: bool) {
+    for cfg in matrix(property, thorough) {
+        if !part.violations.is_empty() {
+            break;
+        }
+        explore(part, &cfg, if thorough { 300_000 } else { 40_000 }, if thorough { 45.0 } else { 6.0 });
+    }
+}
+
 /// Digest-free companion for a (small) server configuration.
 fn companion(part: &mut Part, cfg: &SrvCfg, depth: usize) {
     let t = crate::explore::stateless_dfs(cfg, depth, workers());
@@ -91,6 +192,7 @@ pub fn c08(thorough: bool) -> Vec<Part> {
             companion(&mut part, &cfg, if thorough { 18 } else { 13 });
         }
     }
+    run_matrix(&mut part, "C08", thorough);
     vec![part]
 }
 
@@ -217,6 +319,7 @@ pub fn c07(thorough: bool) -> Vec<Part> {
         };
         explore_req(&mut part, &cfg, if thorough { 4_000_000 } else { 500_000 }, if thorough { 2400.0 } else { 120.0 }, req);
     }
+    run_matrix(&mut part, "C07", thorough);
     vec![part]
 }
 
@@ -297,6 +400,7 @@ pub fn c09(thorough: bool) -> Vec<Part> {
             companion(&mut part, cfg, if thorough { 12 } else { 9 });
         }
     }
+    run_matrix(&mut part, "C09", thorough);
     vec![part]
 }
 
